@@ -399,6 +399,10 @@ func c15Sequential(w *W) {
 		attempts := 0
 		errs := []error{}
 		step := func() error {
+			if attempts >= len(plan) {
+				attempts++ // far beyond n: reported below
+				return nil
+			}
 			k := plan[attempts]
 			attempts++
 			switch k {
